@@ -800,9 +800,11 @@ def encode_list(lst):
 
 def encode_dict(dct):
     dct_enc = collections.OrderedDict()
-    for key,value in sorted(dct.items()):
+    for key in dct:
+        # Check all keys first because sorting mixed types raises TypeError
         if not isinstance(key, str):
             raise ValueError(f'Invalid key: {key!r}')
+    for key,value in sorted(dct.items()):
         key_enc = str(key).encode('utf8')
         value_enc = encode_value(value)
         dct_enc[key_enc] = value_enc
